@@ -268,7 +268,7 @@ func build(tier string) []*vexp.Scenario {
 		b := b
 		if b == "spawn" || b == "ask" {
 			// (ask: the registration of a System.Ask racing the root's sweep of its pending Asks needs two deviations - fix 02926c2)
-			out = append(out, vexp.Split(6, func() *vexp.Scenario { return scenario([]string{b}, "stopping", []int{0, 1, 2}) })...)
+			out = append(out, vexp.Split(16, func() *vexp.Scenario { return scenario([]string{b}, "stopping", []int{0, 1, 2}) })...)
 			continue
 		}
 		out = append(out, scenario([]string{b}, "stopping", narrow))
